@@ -5,7 +5,7 @@ from oracle_util import *  # noqa
 from protocol import from_real, pm
 
 ID = "C17"
-LEAN_MODULE = ["SCoda.Props.C17", "SCoda.Props.Notes", "SCoda.Props.NotesB", "SCoda.Props.WrapTie", "SCoda.Props.AbsTie2", "SCoda.Props.SortTie"]
+LEAN_MODULE = ["SCoda.Props.C17", "SCoda.Props.Notes", "SCoda.Props.NotesB", "SCoda.Props.WrapTie", "SCoda.Props.AbsTie2", "SCoda.Props.SortTie", "SCoda.Props.AbsTie2G"]
 LEVEL = "proof"
 CLAUSES = [
     ("reflexive (every list, every flag set) and symmetric", ["SCoda.C17.refl", "SCoda.C17.symm"]),
@@ -44,6 +44,8 @@ CLAUSES = [
      ["SCoda.WrapTie.eqDunder_eq", "SCoda.WrapTie.equals_eq", "SCoda.WrapTie.defaults_pinned"]),
     ("TIE BY TRANSLATION of the sort that every absolute-view operation goes through: AbsoluteSequence.sort (its list.sort call and the key lambda (time, -1 if channel is None else channel, message_type, note)), MessageType.__lt__ and the declaration order of the enum members are re-translated expression by expression on every run (Gen/SortFns.lean, tools/py2lean_sort.py; Python's == and < on None / int / enum members, tuple comparison, list.index and list.sort are the language model Model/SortLib.lean) and proved equal to the hand model: on every message list whose keys Python can compare (the times are all None or all ints; two messages equal in (time, channel, type) have both notes None or both ints) the translated sort returns exactly sortAbs l, through any projection (heap references, tagged messages); outside that domain it raises TypeError, as the real code does (replayed: a NOTE_ON with a note and a hand-built NOTE_ON without one on the same tick and channel; a message without a time in a timed sequence; two TIME_SIGNATUREs on one tick and channel are inside the domain); keyLe a b holds iff key(b) < key(a) is False; Python's key order is a strict weak order on the domain and ANY stable sort by it (a permutation that is sorted and keeps the relative order of equal keys) is sortAbs l — modelling CPython's timsort by an insertion sort is a theorem, the one assumption left is that list.sort is a stable comparison sort. This discharges the list.sort links of tools/py2lean.py (sort -> sortAbs) and tools/py2lean_abs2.py (sortRefs), which until now were only fingerprinted (tools/conventions.py)",
      ["SCoda.SortTie.sort_eq", "SCoda.SortTie.sortOf_eq_isort", "SCoda.SortTie.sort_raises", "SCoda.SortTie.sortOf_raises", "SCoda.SortTie.sort_ok_iff", "SCoda.SortTie.keyLe_iff", "SCoda.SortTie.keyLt_eq", "SCoda.SortTie.keyLt_ok_iff_comparable", "SCoda.SortTie.messageTypeLt_eq", "SCoda.SortTie.messageTypeLt_nonmember", "SCoda.SortTie.members_eq", "SCoda.SortTie.memberNames_eq", "SCoda.SortTie.generated_order_strictWeakOrder", "SCoda.SortTie.any_stable_sort_eq_sortAbs", "SCoda.SortTie.stable_sort_is_isortBy", "SCoda.SortTie.isortBy_is_stable_sort", "SCoda.SortTie.sortDom_of_wellFormed", "SCoda.SortTie.sortRefs_discharged", "SCoda.SortTie.viewSort_discharged", "SCoda.SortTie.sort_eq_statement_false", "SCoda.SortTie.keyLe_iff_statement_false"]),
+    ('equals only ADDS objects to the heap (audit round 4 C6): the translated equals returns the initial heap with the imputed messages appended, every old cell and every old reference list is unchanged',
+     ["SCoda.AbsTie2G.equalsAbs_eq_grows", "SCoda.AbsTie2G.equalsAbs_old_cells"]),
 ]
 RULE = ("base well-formed sequences (<=6 notes, signatures) paired with: themselves, shuffled insertion orders, the relative "
         "re-representation, and every single-attribute perturbation (pitch, onset, duration, velocity, channel relabel, "
